@@ -113,10 +113,10 @@ def jobs(tier):
 def meta(tier):
     return {
         'bounds': ['data lengths ' + ('{1,2,7,8,9,16,20}' if tier == 'quick' else 'every length 1..255') + ' bytes (single-frame DM16 up to 7, RTS/CTS above), object sizes 1/2/4/8',
-                   '32-bit pointer, every data byte supplied by the server, every written value (full unsigned range), the seed (1..0xFFFE) symbolic; key function seed ^ 0xFFFF',
+                   '32-bit pointer, every data byte supplied by the server, every written value (full unsigned range), the seed (all 16-bit values) symbolic; key function seed ^ 0xFFFF',
                    'read raw / converted, signed / unsigned; direct and spatial addressing; with and without seed/key; client through MemoryAccess and through Dm14Query',
                    '1..3 transactions back to back on the same objects; canonical schedule (all interleavings for one 20-byte read and write)'],
-        'outside': ['seeds 0x0000 / 0xFFFF (reserved meanings)', 'other lengths', 'J1939-22'],
+        'outside': ['other lengths', 'J1939-22'],
         'assumptions': ['command, status and pointer type stay concrete (they reach identity comparisons in the code under test)',
                         'the serving application answers 2 ms after the notify callback from its own thread (world event)',
                         'queue.Queue of Dm14Query / Dm14Server replaced by a queue whose blocking get() runs the scheduler'],
